@@ -4,5 +4,6 @@ CONSTANTS
   Routes = {"interp", "java"}
   Progs = {"p1"}
   Digests = {7, 8}
+  Builds = {"ok", "javac"}
 INVARIANTS NeverAcceptedClosed
 CHECK_DEADLOCK FALSE
